@@ -73,6 +73,15 @@ let parse_ent s : (n * (n * n)) list =
     | [d; c; h] -> (n_of_dec d, (n_of_dec c, n_of_dec h))
     | _ -> failwith "ent item") (items ';' s)
 let parse_nb s : n list = List.map n_of_dec (items ',' s)
+(* the implementation's whole RIB dump as a model-typed rib *)
+let parse_rib s : (n * entry) list =
+  List.map (fun it -> match String.split_on_char '/' it with
+    | [d; h1; l1; h2; l2; dirty; cs] ->
+        let costs = List.map (fun c -> match String.split_on_char '=' c with
+                      | [h; v] -> (n_of_dec h, n_of_dec v) | _ -> failwith "cost item") (items ',' cs) in
+        (n_of_dec d, { costs = costs; nh1 = n_of_dec h1; nh2 = n_of_dec h2; low1 = n_of_dec l1; low2 = n_of_dec l2;
+                       dirty = (dirty = "1") })
+    | _ -> failwith "rib item") (items ';' s)
 
 let () =
   let lineno = ref 0 and case = ref "-" in
@@ -82,6 +91,7 @@ let () =
   (* implementation side: latest neighbour table and Entries() per router *)
   let impl_nb : (n, n list) Hashtbl.t = Hashtbl.create 16 in
   let impl_ent : (n, (n * (n * n)) list) Hashtbl.t = Hashtbl.create 16 in
+  let impl_rt : (n, router) Hashtbl.t = Hashtbl.create 16 in
   (* round counting since the last topology change *)
   let proto = ref false in
   let phys : (n, n list) Hashtbl.t = Hashtbl.create 16 in
@@ -114,14 +124,15 @@ let () =
       (try
       match String.split_on_char ' ' line with
       | "case" :: k :: kind :: _ ->
-          incr ncases; case := k ^ ":" ^ kind; model := []; Hashtbl.reset impl_nb; Hashtbl.reset impl_ent;
+          incr ncases; case := k ^ ":" ^ kind; model := []; Hashtbl.reset impl_nb; Hashtbl.reset impl_ent; Hashtbl.reset impl_rt;
           clean := true; evc := 0; delivered := false; Hashtbl.reset slots; reset_rounds (); proto := (kind = "proto"); Hashtbl.reset phys;
           Hashtbl.reset tbl_of_dec; Hashtbl.reset tbl_to_dec
       | "node" :: a :: h :: _ -> node_alias a (n_of_dec_raw h)
       | ["ev"; "rup"; i] -> incr evc; apply (RouterUp (n_of_dec i)) true
       | ["ev"; "rdown"; i] ->
           let i = n_of_dec i in
-          incr evc; clean := false; Hashtbl.remove impl_nb i; Hashtbl.remove impl_ent i; apply (RouterDown i) true
+          incr evc; clean := false; Hashtbl.remove impl_nb i; Hashtbl.remove impl_ent i; Hashtbl.remove impl_rt i;
+          apply (RouterDown i) true
       | ["ev"; "up"; i; j] -> incr evc; apply (NbrUp (n_of_dec i, n_of_dec j)) true
       | ["ev"; "dead"; i; j] -> incr evc; clean := false; apply (NbrDead (n_of_dec i, n_of_dec j)) true
       | ["ev"; "fetch"; i; j] ->
@@ -155,6 +166,7 @@ let () =
           if not (adv_ok iadv) then oracle "adv_ok" ("router=" ^ dec_of_n i ^ " adv=" ^ adv);
           Hashtbl.replace impl_nb i (parse_nb nb);
           Hashtbl.replace impl_ent i (parse_ent ent);
+          Hashtbl.replace impl_rt i { self = i; rrib = parse_rib rib; nbrs = parse_nb nb };
           if !proto then () else begin
           (match getr !model i with
            | None -> diverge "router" "absent" "present"
@@ -185,6 +197,16 @@ let () =
                   oracle "table_ok" (Printf.sprintf "router=%s rounds=%d table=%s" (dec_of_n i) !rounds
                     (dashed ";" (List.map (fun (d, (c, h)) -> String.concat "/" [dec_of_n d; dec_of_n c; dec_of_n h]) tbl)))) g
           end
+      | ["chkquiet"] ->
+          incr nchecks;
+          (* the implementation's own state, as dumped, taken as a network state of the model's type *)
+          let si = List.sort (fun a b -> ncmp a.self b.self) (Hashtbl.fold (fun _ r acc -> r :: acc) impl_rt []) in
+          if not (settled (topo_of si)) then Printf.printf "BADCHK %d %s not-settled\n" !lineno !case
+          else if not (fixedb si) then
+            oracle "quiet_not_fixed" "the implementation announced nothing more, yet some router has not processed a neighbour's current advertisement"
+          else if not (converged si) then
+            oracle "quiet_not_converged" (String.concat " | " (List.map (fun r -> dec_of_n r.self ^ ": " ^ str_ent r) si))
+      | "noquiet" :: _ -> oracle "no_quiescence" "the notification-driven schedule did not come to rest within 20000 fetches"
       | ["phys"; i; nb] -> Hashtbl.replace phys (n_of_dec i) (parse_nb (split_field "nb=" nb))
       | ["chkphys"; _w] ->
           incr nchecks;
